@@ -43,6 +43,17 @@ CHECKS = {
         note="Trusted: Coq kernel + vm_compute; harness as test equipment; Apache Thrift readers assumed graceful (exercised only); messages < 2^31 bytes.",
         technique="Coq totality proofs over a Go-partiality model + vm_compute trace-validation judge on all receiving entry points",
         design="5/C05"),
+    "C07": dict(
+        text="12 Coq theorems (no axioms) over interleaving models of the NATS and STOMP subscriber transports, the generated recv<Op> callback and "
+             "the publisher frame, for all publish sequences, schedules and worker counts: exact order for one worker; exactly-once multiset for n "
+             "workers at quiescence; at-most-once, on-topic-only and intact delivery in every history; bad-message isolation (workers never exit); no "
+             "invocation starts for a message published after Unsubscribe; STOMP Unsubscribe can always complete; frame-level intactness composed "
+             "from C04 and C02. Tie: every observed experiment (lab-generated publishers/subscribers over embedded NATS and STOMP brokers) is "
+             "replayed by the Coq judge with the same step functions, the judge inferring the unobserved internal steps; plus a direct oracle.",
+        note="Trusted: Coq kernel + vm_compute; broker = topic-filtered FIFO (checked per experiment by a tap subscription); nats.go/go-stomp client queues as "
+             "documented; hypothesis crash_free (no frame makes the callback panic: C05's subject); liveness only as quiescence. NATS Unsubscribe atomic in the model.",
+        technique="Coq interleaving model + invariants; trace-validation judge on lab-generated code over embedded brokers; direct oracle",
+        design="5/C07"),
     "C08": dict(
         text="Coq theorems (no axioms) over an executable model of the four generators' topic code: the parser's prefix-variable scan, "
              "strings.Title, the emitted op/prefix/topic statements and their evaluation under each target language's rules for string "
@@ -106,6 +117,18 @@ CHECKS = {
              "MaxWait; EOF inside a frame reported as a clean close.",
         technique="interleaving small-step model + invariants, trace-validation judge, scheduled harness with yield hooks, direct oracle",
         design="5/C15"),
+    "C16": dict(
+        text="13 Coq theorems (no axioms) about an executable model of lib/go/middleware.go, provider.go, processor.go and the generated Go "
+             "client/processor/publisher/subscriber wiring (Go slices with backing arrays): for all middleware lists, arguments and heaps each "
+             "middleware runs once, nested, later-listed outermost, provider outside constructor, AddMiddleware outermost, the same single nesting "
+             "for inherited methods; exact value flow of rewrites across client, wire, server and across publisher, topic, subscriber; arity breaks "
+             "panic where Go panics. One statement is refuted with a witness (subscriber keeps the caller's backing array: known finding), its safe "
+             "subset proved. Tie: the judge replays every observed trace (entries/exits with values, panics, aliasing) of real generated code "
+             "(lab) on the same definitions.",
+        note="Trusted: Coq kernel + vm_compute; lab/harness as test equipment. Dynamic-type failures of reflect/type assertions and the codec are outside the model "
+             "(values restricted to those measured wire-stable). Known finding: generated subscriber constructors keep the caller's middleware backing array.",
+        technique="Coq model + trace-validation judge; generated-code laboratory with tracing/rewriting middleware at every attachment point",
+        design="5/C16"),
     "C17": dict(
         text="Coq theorems over an explicit heap model of FContext (every map at its own address, so aliasing is expressible): separation of all "
              "map slots in every reachable state (contexts, clones, maps handed out by getters, protocol objects), frame property of every "
